@@ -480,7 +480,10 @@ def tie_terms(cells, accepted):
 
 
 TIE_TYPE = "form * cty * cty * bool"
-TIE_PRED = "fun c => match c with (f, s, t, a) => Bool.eqb (assign_ok f s t) a end"
+import os as _os
+# C05_MODEL=declfix: the tree with seeded/_proposed_fixes/C05_decl_trial_assign.diff applied
+ASSIGN_OK = "assign_ok_declfix" if _os.environ.get("C05_MODEL") == "declfix" else "assign_ok"
+TIE_PRED = "fun c => match c with (f, s, t, a) => Bool.eqb (%s f s t) a end" % ASSIGN_OK
 DOC_PRED = "fun c => match c with (f, s, t, a) => Bool.eqb (doc_ok s t) a end"
 
 
@@ -678,6 +681,32 @@ def viol_key(c):
     return {"form": c["form"], "src": kind_name(c["src"]), "tgt": kind_name(c["tgt"]), "rel": rel_class(c["src"], c["tgt"])}
 
 
+MERGE_FORMS = ("ifexp_a", "ifexp_b", "ret_a", "ret_b")
+
+
+def defect_class(c):
+    """the genuine defect classes of the current tree (one known-finding key each)"""
+    s_, t_ = c["src"][0], c["tgt"][0]
+    if t_ == "Bool" and s_ not in ("Bit", "Bool"):
+        return "truthiness_to_bool"                     # bool(x): any vector / integer / literal accepted, emitted x /= 0
+    if "Int" in (s_, t_) and (s_ in VEC or t_ in VEC):
+        if s_ == "Int":
+            return "runtime_integer_into_vector"        # to_unsigned / to_signed of a run-time integer truncates
+        if c["form"] in MERGE_FORMS and is_vec(c["src"]) and c["src"][1] <= 31:
+            return "runtime_integer_into_vector"        # the integer branch of a merge is joined into the vector type
+        return "vector_wider_than_integer"              # to_integer of 32 (unsigned) / 33 (signed) bits leaves the integer range
+    if c["form"] in ("decl_sig", "decl_var") and {s_, t_} == {"U", "S"}:
+        return "declaration_reinterprets_signedness"    # no trial assignment: format_cast reinterprets equal widths
+    return None
+
+
+def class_key(c, kind):
+    cls = defect_class(c) if kind in ("undocumented_accept", "value_mismatch") else None
+    if cls:
+        return {"class": cls}
+    return dict(viol_key(c), **{"class": kind})
+
+
 def cell_json(c):
     return {"form": c["form"], "qual": c["qual"], "src": list(c["src"]), "tgt": list(c["tgt"]), "root": c["root"]}
 
@@ -718,6 +747,16 @@ def run(ck: common.Check, replay=None):
         phase[name] = round(time.time() - t0, 1)
         t0 = time.time()
 
+    findings = {}
+
+    def report(key, what, inst, no_input=False):
+        k = json.dumps(key, sort_keys=True)
+        f = findings.setdefault(k, {"key": key, "what": what, "no_input": no_input, "instances": [], "n": 0})
+        f["no_input"] = f["no_input"] and no_input
+        f["n"] += 1
+        if len(f["instances"]) < 10:
+            f["instances"].append(inst)
+
     ck.check_props("C05_Properties.v")
     mark("props")
     if replay is not None:
@@ -756,11 +795,10 @@ def run(ck: common.Check, replay=None):
         seen.add(k)
         if accepted[i] and not pydoc[i]:
             continue        # reported below as a violation of the spec itself
-        key = dict(viol_key(c), model="assign_ok")
-        ck.violation(key, "Conv.assign_ok no longer predicts the compiler's decision (accepted=%s, documented=%s); no value is "
-                     "mis-converted by this cell" % (accepted[i], pydoc[i]),
-                     {"cell": cell_json(c), "source": designs[i]["source"], "accepted": accepted[i], "error": res[i].get("error")},
-                     no_input=True)
+        report(class_key(c, "model_out_of_date"),
+               "Conv.assign_ok no longer predicts the compiler's decision; no value is mis-converted by these cells",
+               {"cell": cell_json(c), "source": designs[i]["source"], "accepted": accepted[i], "documented": pydoc[i],
+                "error": res[i].get("error")}, no_input=True)
 
     mark("tie")
     # ---- (1c) the spec: accepted but not documented ----
@@ -781,21 +819,24 @@ def run(ck: common.Check, replay=None):
     singles = []
     for i, c in enumerate(cells):
         if accepted[i] and pydoc[i] and small(c["src"]) and small(c["tgt"]):
-            if c["form"] in ("port_in", "port_out") and c["src"] != c["tgt"]:
-                singles.append([c])      # a port map carries no conversion: looked at one by one
-            else:
-                packs.setdefault(pack_key(c), []).append(c)
+            packs.setdefault(pack_key(c), []).append(c)
     pdesigns = []
     for n, (k, cs) in enumerate(sorted(packs.items(), key=lambda kv: str(kv[0]))):
         for part in range(0, len(cs), 12):
             pdesigns.append(make_pack("v%03d_%d_%s_%s" % (n, part // 12, tname(k[0]), k[1]), cs[part:part + 12]))
     # one witness design per undocumented class: does some source value lose its number?
     wdesigns = []
+    per_class = {}
     for n, (k, idxs) in enumerate(sorted(undocumented.items())):
         sm = [i for i in idxs if small(cells[i]["src"]) and small(cells[i]["tgt"])]
         if not sm:
             continue        # witnesses are searched on widths <= 3 only (the alphabet is the product of all inputs)
         i = sm[0]
+        ckey = json.dumps(class_key(cells[i], "undocumented_accept"), sort_keys=True)
+        forms_seen = per_class.setdefault(ckey, [])
+        if cells[i]["form"] in forms_seen or len(forms_seen) >= 4:
+            continue
+        forms_seen.append(cells[i]["form"])
         wdesigns.append((k, i, make_pack("w%03d_%s" % (n, cells[i]["form"]), [cells[i]], conv="keep")))
     pres = X.compile_designs(ck, [{"name": d["name"], "source": d["source"], "entity": "E"} for d in pdesigns + [w[2] for w in wdesigns]])
     mark("compile_packs")
@@ -808,7 +849,7 @@ def run(ck: common.Check, replay=None):
 
     what = ("an accepted, documented conversion does not produce conv_val of the source on some input "
             "(or the emitted cast is ill-typed: Err)")
-    key_of = lambda c: dict(viol_key(cell_from_json(c.meta["cells"][0])), stage="value")
+    key_of = lambda c: class_key(cell_from_json(c.meta["cells"][0]), "value_mismatch")
     ready = []
     for d, r in zip(pdesigns, pres):
         ck.evaluations += 1
@@ -840,7 +881,7 @@ def run(ck: common.Check, replay=None):
             ck.evaluations += 1
             if not r["ok"]:
                 ck.obligation(False)
-                ck.violation(dict(viol_key(d["cells"][0]), stage="value"), "cell accepted in the grid is rejected on recompilation: " +
+                ck.violation(class_key(d["cells"][0], "value_mismatch"), "cell accepted in the grid is rejected on recompilation: " +
                              r["error"][:200], {"source": d["source"]}, no_input=True)
                 continue
             try:
@@ -863,18 +904,13 @@ def run(ck: common.Check, replay=None):
             else:
                 ck.violation(key_of(c), "case obligation not discharged although no difference was found", {"case_file": c.path,
                              "log": (out + err)[-800:]}, no_input=True)
-        seenv = set()
         for c, (st, info) in zip(scases, verdicts):
             if st == "same":
                 continue
             ck.obligation(False)
-            k = json.dumps(key_of(c), sort_keys=True)
-            if k in seenv:
-                continue
-            seenv.add(k)
-            rep = {"cell": c.meta["cells"][0], "source": c.meta["source"], "vhdl": c.vhdl, "status": st}
+            rep = {"cell": c.meta["cells"][0], "stage": "value", "source": c.meta["source"], "vhdl": c.vhdl, "status": st}
             rep.update(info)
-            ck.violation(key_of(c), what, rep, no_input=(st != "cex"))
+            report(key_of(c), what, rep, no_input=(st != "cex"))
     ck.cov["value_items_rechecked_alone"] = len(singles)
 
     mark("value_theorems")
@@ -900,20 +936,20 @@ def run(ck: common.Check, replay=None):
         else:
             witness[wmap[c.name]] = {"status": st, **{a: b for a, b in info.items() if a != "log"}}
         common._cleanup_v(c.path)
-    # numbers lost / reinterpreted first, truthiness (-> bool) last: only the first 25 findings get a replay file
-    for k, idxs in sorted(undocumented.items(), key=lambda kv: (cells[kv[1][0]]["tgt"][0] == "Bool", kv[0])):
-        i = idxs[0]
-        c = cells[i]
+    for k, idxs in sorted(undocumented.items()):
         import re as _re
-        stmts = [l.strip() for l in res[i]["vhdl"].split("\n")
-                 if _re.search(r"(<=|:=|=>)", l) and "q0 <= buffer_q0" not in l and not l.strip().startswith("--")
-                 and (_re.search(r"(<=|:=|=>).*\ba\b", l) or not is_runtime(c["src"]) and "q0" in l)]
-        stmt = " | ".join(stmts[:4])
-        w = witness.get(k) or {"status": wmap.get("!" + k, "no witness design")}
-        ck.violation(viol_key(c), "conversion accepted although the statement demands a compile-time error (%d cells of this class)" % len(idxs),
-                     {"cell": cell_json(c), "source": designs[i]["source"], "emitted": stmt, "witness": w,
-                      "others": [cell_json(cells[j]) for j in idxs[1:6]]})
-
+        w = witness.get(k) or {"status": wmap.get("!" + k, "no witness design for this form (see the other instances)")}
+        for n, i in enumerate(idxs[:2]):
+            c = cells[i]
+            stmts = [l.strip() for l in res[i]["vhdl"].split("\n")
+                     if _re.search(r"(<=|:=|=>)", l) and "q0 <= buffer_q0" not in l and not l.strip().startswith("--")
+                     and (_re.search(r"(<=|:=|=>).*\ba\b", l) or not is_runtime(c["src"]) and "q0" in l)]
+            inst = {"cell": cell_json(c), "stage": "accept", "source": designs[i]["source"], "emitted": " | ".join(stmts[:4])}
+            if n == 0:
+                inst["witness"] = w
+                inst["cells_of_this_form_and_pair"] = len(idxs)
+            report(class_key(c, "undocumented_accept"),
+                   "conversion accepted although the statement demands a compile-time error", inst)
     mark("witnesses")
     # ---- (3) emitted cast text vs Conv.cast_emit ----
     terms, who = [], []
@@ -924,8 +960,8 @@ def run(ck: common.Check, replay=None):
             ce = emitted_cast(res[i]["vhdl"], c)
         except (ValueError, R.Unparsed) as e:
             ck.obligation(False)
-            ck.violation(dict(viol_key(c), stage="cast_text"), "emitted statement is outside the cast vocabulary: " + str(e),
-                         {"cell": cell_json(c), "vhdl": res[i]["vhdl"]}, no_input=True)
+            report(class_key(c, "cast_text"), "emitted statement is outside the cast vocabulary / differs from Conv.cast_emit",
+                   {"cell": cell_json(c), "error": str(e), "vhdl": res[i]["vhdl"]}, no_input=True)
             continue
         vt = (c["root"], c["tgt"][1]) if c["form"] == "slice" else c["tgt"]
         terms.append("(%s, %s, %s, %s)" % (coq_ty(vt), coq_ty(c["tgt"]), coq_ty(c["src"]), ce))
@@ -934,19 +970,31 @@ def run(ck: common.Check, replay=None):
         badc = common.coq_bad_indices(ck, "cast", PRE, "cty * cty * cty * cexp", terms,
                                       "fun c => match c with (vt, tg, st, e) => cexp_eqb (cast_emit vt tg st) e end")
         ck.obligation(True, len(terms) - len(badc))
-        seenc = set()
         for b in badc:
             c = cells[who[b]]
             ck.obligation(False)
-            k = json.dumps(viol_key(c), sort_keys=True)
-            if k in seenc:
-                continue
-            seenc.add(k)
-            ck.violation(dict(viol_key(c), stage="cast_text"), "emitted cast differs from Conv.cast_emit (value theorems decide whether "
-                         "the new text is still right)", {"cell": cell_json(c), "observed": terms[b]}, no_input=True)
+            report(class_key(c, "cast_text"), "emitted statement is outside the cast vocabulary / differs from Conv.cast_emit",
+                   {"cell": cell_json(c), "observed": terms[b]}, no_input=True)
         ck.cov["cast_texts_compared"] = len(terms)
 
     mark("cast_text")
+    order = {"runtime_integer_into_vector": 0, "declaration_reinterprets_signedness": 1, "vector_wider_than_integer": 2,
+             "undocumented_accept": 3, "value_mismatch": 4, "truthiness_to_bool": 8}
+    descr = {
+        "runtime_integer_into_vector": "a run-time integer is accepted as source of an Unsigned/Signed target (directly or as a branch "
+                                       "of a merge) and is truncated by to_unsigned / to_signed",
+        "declaration_reinterprets_signedness": "Signal[T](x) / Variable[T](x) inside a context makes no trial assignment: Signed <-> "
+                                               "Unsigned of equal width is accepted and reinterpreted",
+        "truthiness_to_bool": "a vector, integer or literal is accepted as source of a bool target (python truthiness, x /= 0)",
+        "vector_wider_than_integer": "Unsigned[>31] / Signed[>32] is accepted as source of an integer target (to_integer range error)",
+    }
+    for k, f in sorted(findings.items(), key=lambda kv: (order.get(kv[1]["key"].get("class"), 6), kv[0])):
+        f["what"] = descr.get(f["key"].get("class"), f["what"]) if len(f["key"]) == 1 else f["what"]
+        rep = dict(f["instances"][0])
+        rep["instances"] = f["instances"]
+        rep["count"] = f["n"]
+        ck.violation(f["key"], "%s (%d instances, %d shown)" % (f["what"], f["n"], len(f["instances"])), rep, no_input=f["no_input"])
+    ck.cov["finding_classes"] = {json.dumps(f["key"], sort_keys=True): f["n"] for f in findings.values()}
     ck.cov["cells"] = len(cells)
     ck.cov["accepted"] = sum(accepted)
     ck.cov["undocumented_classes"] = len(undocumented)
